@@ -1,6 +1,8 @@
 """C14 — clones are independent; results do not depend on scheduling (structural clauses)."""
 import json
 
+import re
+
 from .. import facts as F
 from .. import lib as L
 
@@ -316,6 +318,32 @@ def run(ctx):
     for r in ("llguidance::factory::ParserFactory", PARSER, "llguidance::tokenparser::TokenParser"):
         a = P.adts.get(r, {}).get("auto") or {}
         ctx.check(a.get("sync") is True, "C14-R4", "Sync:" + r, "%s: Sync" % r.rsplit("::", 1)[1], "%s is no longer Sync" % r)
+
+    # ------------------------------------------------------------------ R6 per-step budgets of the shared lexer come from the engine's own limits
+    # clones share one lexer; its work budget (fuel, max states) is re-armed per step.  The budget must be a function of the
+    # calling engine's configuration only — if it is computed from the shared lexer's running totals (total_fuel_spent,
+    # stats.lexer_cost snapshots) a clone's result depends on how much its siblings have been using the lexer
+    RVEC = "llguidance::earley::regexvec::RegexVec"
+    LIM = "llguidance::api::ParserLimits"
+    n_b = 0
+    for setter in ("set_fuel", "set_max_states"):
+        for c in sorted(P.callers_of(RVEC + "::" + setter)):
+            cb_ = P.bodies.get(c)
+            if cb_ is None:
+                continue
+            for bi in cb_.call_blocks(RVEC + "::" + setter):
+                n_b += 1
+                a = cb_.blocks[bi]["term"]["args"][1]
+                r = L.role(cb_, a, depth=14)
+                e = cb_.expr(a)
+                fs = F.place_fields(e[1]) if e[0] in ("place", "ref") else []
+                from_limits = bool(re.fullmatch(r"(call:clone\()?&?param:\d+(\.\*)*(\.limits)?\)?(\.\*)*\.[a-z_]+", r)) and not any(
+                    x in r for x in ("total_fuel_spent", "lexer_cost", "stats", "Sub", "Add", "saturating"))
+                ctx.check(from_limits, "C14-R6", "lexer-budget-from-own-limits:%s@%s" % (setter, c.rsplit("::", 1)[1]),
+                          "%s(%s)" % (setter, r),
+                          "%s arms the shared lexer with `%s`, which is not a plain field of the engine's own limits: a budget derived from "
+                          "the shared lexer's counters makes a clone's mask depend on its siblings' activity" % (c, r), site=cb_.where(bi))
+    ctx.floor("C14-R6", "budget setters of the shared lexer", n_b, 3)
 
     # ------------------------------------------------------------------ R5 batch API
     if ctx.config == "default":
